@@ -270,6 +270,11 @@ fn expand(st: &State, depth: usize, l: &mut Local, out: &mut Vec<State>) {
                     if let (Some(p), Some(q)) = (&lft, &rgt) {
                         ok &= p.x[0] == x0 && p.x[p.x.len() - 1] == a && q.x[0] == a && q.x[q.x.len() - 1] == x1;
                     }
+                } else {
+                    // a cut outside the domain leaves the whole series on the far side and nothing on the near one
+                    let (whole, none) = if a < x0 { (&rgt, &lft) } else { (&lft, &rgt) };
+                    let side = none.is_none() && whole.as_ref().map(|p| p.x.values() == xs.as_slice() && p.y.iter().zip(ys.iter()).all(|(u, v)| u == v || (u.is_nan() && v.is_nan()))).unwrap_or(false);
+                    l.check("a split outside the domain puts the whole series on the side away from the cut", "", side, mk("split_at_x"), || format!("{:e} outside [{:e}, {:e}]: left {:?} right {:?}", a, x0, x1, lft.as_ref().map(|p| p.x.values().to_vec()), rgt.as_ref().map(|p| p.x.values().to_vec())));
                 }
                 l.check("split pieces are valid, meet at the split abscissa and their areas add up", "", ok && (area - trapezoid(&xs, &ys)).abs() <= 1e-9 * scale * (1.0 + (x1 - x0)), mk("split_at_x"), || {
                     format!("{:e}: areas {} vs {}; left {:?} right {:?}", a, area, trapezoid(&xs, &ys), lft.as_ref().map(|p| p.x.values().to_vec()), rgt.as_ref().map(|p| p.x.values().to_vec()))
@@ -346,7 +351,7 @@ fn expand(st: &State, depth: usize, l: &mut Local, out: &mut Vec<State>) {
             }
         }
     }
-    for sp in [0.4 * (x1 - x0), (x1 - x0) / 3.0] {
+    for sp in [0.4 * (x1 - x0), (x1 - x0) / 3.0, 1.5 * (x1 - x0), 7.0 * (x1 - x0)] {
         l.eval();
         l.transitions += 1;
         match guarded(|| s.resampled_x(sp)) {
@@ -354,7 +359,9 @@ fn expand(st: &State, depth: usize, l: &mut Local, out: &mut Vec<State>) {
                 l.check("resampling returns", "panic", false, mk("resampled_x"), || format!("spacing {}: {}", sp, m));
             }
             Ok(r) => {
-                let ok = valid(&r).is_none() && r.xys().all(|(x, y)| (y - eval_ref(&xs, &ys, x.clamp(x0, x1))).abs() <= 1e-9 * scale);
+                // also with a spacing wider than the whole span: both end points are kept
+                let ends = r.x.len() >= 2 && r.x[0] == x0 && (r.x[r.x.len() - 1] - x1).abs() <= 1e-12 * (1.0 + x1.abs());
+                let ok = ends && valid(&r).is_none() && r.xys().all(|(x, y)| (y - eval_ref(&xs, &ys, x.clamp(x0, x1))).abs() <= 1e-9 * scale);
                 l.check("resampling by spacing yields a valid series on the graph", "", ok, mk("resampled_x"), || format!("{:?}", r));
             }
         }
